@@ -17,9 +17,13 @@ struct Ctx { out: Out }
 #[derive(Clone)]
 struct Shape { ver: KeyVersion, primary: KeyType, pname: &'static str, subs: Vec<(KeyType, bool, &'static str)>, uids: usize, pass: Option<&'static str> }
 
+/// the passphrase of subkey `i`: its own when the name says so, else the shape's
+fn sub_pass(sh: &Shape, i: usize) -> Option<&'static str> { if sh.subs[i].2.ends_with("-ownpw") { Some("subpass") } else { sh.pass } }
+
 /// the encryption capability asked for subkey `i` of a shape (by the suffix of its name)
 fn caps_of(sh: &Shape, i: usize) -> EncryptionCaps {
     let n = sh.subs[i].2;
+    let n = n.trim_end_matches("-ownpw");
     if n.ends_with("-comm") { EncryptionCaps::Communication } else if n.ends_with("-stor") { EncryptionCaps::Storage } else { EncryptionCaps::All }
 }
 
@@ -61,7 +65,7 @@ impl Ctx {
                 let mut s = SubkeyParamsBuilder::default();
                 s.version(sh.ver).key_type(kt.clone());
                 if *sign { s.can_sign(true); } else { s.can_encrypt(caps_of(sh, subs.len())); }
-                if let Some(p) = sh.pass { s.passphrase(Some(p.to_string())); }
+                if let Some(p) = sub_pass(sh, subs.len()) { s.passphrase(Some(p.to_string())); }
                 subs.push(s.build().map_err(|e| e.to_string())?);
             }
             let mut p = SecretKeyParamsBuilder::default();
@@ -75,7 +79,8 @@ impl Ctx {
         });
         let key = match built {
             Ok(Ok(k)) => k,
-            Ok(Err(e)) => { self.out.case("", &[], &rp, &format!("refused: {}", &e[..e.len().min(100)]), Some(true), &format!("{cls}-refused")); return; }
+            // generation may decline only what the format does not allow (here: a v4 key without a user id)
+            Ok(Err(e)) => { let allowed = sh.ver == KeyVersion::V4 && sh.uids == 0; self.out.case("", &[], &rp, &format!("refused: {}", &e[..e.len().min(100)]), Some(allowed), &format!("{cls}-refused")); return; }
             Err(p) => { self.out.case("", &[], &rp, &p, Some(false), &format!("{cls}-panic")); return; }
         };
         let pw = Password::from(sh.pass.unwrap_or(""));
@@ -136,7 +141,8 @@ impl Ctx {
             facts.push(("other data rejected", guarded(|| s.verify(&pubk, b"other").is_err()).unwrap_or(false)));
             self.sig_mpis(&s.signature, scalar_len(key.primary_key.algorithm(), &sh.primary), seed, &name);
         }
-        for (sub, spec) in key.secret_subkeys.iter().zip(sh.subs.iter()) {
+        for (si, (sub, spec)) in key.secret_subkeys.iter().zip(sh.subs.iter()).enumerate() {
+            let pw = match sub_pass(sh, si) { Some(p) => Password::from(p), None => Password::empty() };
             if spec.1 {
                 let s = guarded(|| DetachedSignature::sign_binary_data(Rng::new(seed ^ 2), &sub.key, &pw, sub.key.hash_alg(), data.as_bytes()).ok()).ok().flatten();
                 facts.push(("subkey signs", s.is_some()));
@@ -203,6 +209,9 @@ fn main() {
         v.push(Shape { ver: KeyVersion::V6, primary: KeyType::Ed25519, pname: "ed25519", subs: vec![(KeyType::X25519, false, "x25519-stor"), (KeyType::X448, false, "x448-comm")], uids: 1, pass: None });
         v.push(Shape { ver: KeyVersion::V4, primary: KeyType::Rsa(2048), pname: "rsa2048", subs: vec![(KeyType::Rsa(2048), false, "rsa2048")], uids: 1, pass: None });
         v.push(Shape { ver: KeyVersion::V4, primary: KeyType::Dsa(pgp::composed::DsaKeySize::B2048), pname: "dsa", subs: vec![enc4.clone()], uids: 1, pass: None });
+        // subkeys locked with a passphrase of their own (the primary unlocked, or locked with another one)
+        v.push(Shape { ver: KeyVersion::V4, primary: KeyType::Ed25519Legacy, pname: "eddsa-legacy", subs: vec![(KeyType::ECDH(ECCCurve::Curve25519Legacy), false, "cv25519"), (KeyType::Ed25519Legacy, true, "sign-eddsa-legacy-ownpw")], uids: 1, pass: None });
+        v.push(Shape { ver: KeyVersion::V6, primary: KeyType::Ed25519, pname: "ed25519", subs: vec![(KeyType::X25519, false, "x25519-ownpw"), (KeyType::Ed25519, true, "sign-ed25519-ownpw")], uids: 1, pass: Some("pass") });
         v
     };
     if cli.mode == "replay" {
